@@ -53,6 +53,7 @@ type bWorld struct {
 	innerLog []uint64
 	reqs     []*flyio.Access
 	cavLists [][]macaroon.Caveat
+	sameNonce []string
 }
 
 func newBWorld(r *rng.R) *bWorld {
@@ -306,21 +307,37 @@ func (w *bWorld) pool() (perms, dis, junk []string) {
 	p0 := mk("k1", w.keys["k1"], bLocs[0])                     // plain
 	p1 := mk("k1", w.keys["k1"], bLocs[0], bLocs[1])           // needs tp1
 	p2 := mk("k2", w.keys["k2"], bLocs[0], bLocs[1], bLocs[2]) // needs tp1 and tp2
+	w.tpKeys["other-tp1"] = macaroon.NewEncryptionKey()
+	p3, _ := macaroon.New([]byte("k1"), bLocs[0], w.keys["k1"])
+	p3.Add(&flyio.Organization{ID: 1, Mask: resset.ActionAll})
+	p3.Add3P(w.tpKeys["other-tp1"], bLocs[1]) // a tp1 ticket that tp1's key cannot open
 	p1a, _ := p1.Clone()
 	p1a.Add(&rd) // attenuated variant of p1
 	pbad := mk("k1", macaroon.NewSigningKey(), bLocs[0])       // wrongly keyed
 	punk := mk("zz", w.keys["k1"], bLocs[0])                   // unknown key-id
 	pforeign := mk("k1", w.keys["k1"], bLocs[3])               // foreign location: never a permission token
-	perms = []string{str(p0), str(p1), str(p2), str(p1a), str(pbad), str(punk)}
+	perms = []string{str(p0), str(p1), str(p2), str(p1a), str(pbad), str(punk), str(p3)}
 	d1 := discharge(p1, bLocs[1], w.tpKeys[bLocs[1]])
 	d2a := discharge(p2, bLocs[1], w.tpKeys[bLocs[1]], &rd)
 	d2b := discharge(p2, bLocs[2], w.tpKeys[bLocs[2]])
 	// a discharge for a ticket of a token that is not in the header pool (extraneous)
 	px := mk("k1", w.keys["k1"], bLocs[0], bLocs[1])
 	dx := discharge(px, bLocs[1], w.tpKeys[bLocs[1]])
+	// variants of one discharge sharing its nonce (same ticket, same random part): an extra caveat; a corrupted tail
+	_, dv, _ := macaroon.DischargeTicket(w.tpKeys[bLocs[1]], bLocs[1], p1.TicketsForThirdParty(bLocs[1])[0])
+	dvCopy := *dv
+	dvCopy.UnsafeCaveats = *macaroon.NewCaveatSet()
+	dvCopy.Add(&macaroon.ValidityWindow{NotBefore: 1, NotAfter: 2}) // expired window: clears nothing
+	dvBad := *dv
+	dvBad.UnsafeCaveats = *macaroon.NewCaveatSet()
+	sA, sB := str(dv), str(&dvCopy)
+	dvBad.Tail = append([]byte{}, dv.Tail...)
+	dvBad.Tail[0] ^= 1
+	sBad := str(&dvBad)
 	// right ticket, wrong secret
 	fake, _ := macaroon.New(p1.TicketsForThirdParty(bLocs[1])[0], bLocs[1], macaroon.NewSigningKey())
-	dis = []string{d1, d2a, d2b, dx, str(fake), str(pforeign)}
+	dis = []string{d1, d2a, d2b, dx, str(fake), str(pforeign), sA, sB, sBad}
+	w.sameNonce = []string{sA, sB, sBad}
 	junk = []string{"fo1_abc", "hello", "fm2_!!!", "fm2_" + "AAAA", "", "fm1r_" + strings.TrimPrefix(str(p0), "fm2_")}
 	_ = r
 	return
@@ -338,6 +355,11 @@ func genBundle(c *ctx, cached bool) {
 	}
 	if cached {
 		knownF7b(c, st)
+		if f := cacheTTLOracle(c); f != "" {
+			st.Add(&cs.Case{Coq: "(KBun (mkTab [] [] [] []) [] [])", Class: "ttl-expiry", Nontrivial: true, Desc: map[string]any{"what": "real-time TTL: miss, hit inside the TTL, then a presentation after the first entry's expiry"}, OracleFail: f})
+		} else {
+			st.Add(&cs.Case{Coq: "(KBun (mkTab [] [] [] []) [CNew 0%N true 1%nat] [[]])", Class: "ttl-expiry", Nontrivial: true, Desc: map[string]any{"what": "real-time TTL scenario (1 s): passed"}})
+		}
 	}
 	for i := 0; i < n; i++ {
 		r := c.r.Fork()
@@ -360,7 +382,13 @@ func genBundle(c *ctx, cached bool) {
 			obs = append(obs, ob)
 			desc = append(desc, fmt.Sprintf("%s -> %v", op, ob))
 		}
-		randHeader := func(onePerm bool) string {
+		// d1 and the same-nonce variants are all valid for p1's ticket: at most one of them per bundle
+		// (two different valid discharges for one ticket is known finding F7b, reproduced by its own case)
+		group := map[string]bool{dis[0]: true}
+		for _, g := range w.sameNonce[:2] {
+			group[g] = true
+		}
+		randHeaderG := func(onePerm, allowGroup bool) string {
 			var parts []string
 			np := 1 + r.Intn(3)
 			if onePerm {
@@ -369,8 +397,16 @@ func genBundle(c *ctx, cached bool) {
 			for k := 0; k < np; k++ {
 				parts = append(parts, rng.Pick(r, perms))
 			}
+			usedGroup := !allowGroup
 			for k := r.Intn(4); k > 0; k-- {
-				parts = append(parts, rng.Pick(r, dis))
+				d := rng.Pick(r, dis)
+				if group[d] {
+					if usedGroup {
+						continue
+					}
+					usedGroup = true
+				}
+				parts = append(parts, d)
 			}
 			if !cached {
 				for k := r.Intn(3); k > 0; k-- {
@@ -385,6 +421,7 @@ func genBundle(c *ctx, cached bool) {
 			}
 			return h
 		}
+		randHeader := func(onePerm bool) string { return randHeaderG(onePerm, true) }
 		toksOf := func(hdr string) string {
 			all, _ := bundle.ParseBundleWithFilter(bLocs[0], hdr, bundle.KeepAll)
 			var ts []string
@@ -438,7 +475,7 @@ func genBundle(c *ctx, cached bool) {
 			case 0:
 				parse()
 			case 1:
-				hdr := randHeader(false)
+				hdr := randHeaderG(false, false)
 				ts := toksOf(hdr)
 				err := b.AddTokens(hdr)
 				rec(coqw.App("BAdd", coqw.N(s), ts), []int64{b2i64x(err == nil)})
@@ -499,7 +536,12 @@ func genBundle(c *ctx, cached bool) {
 				rq := uint64(r.Intn(len(w.reqs)))
 				rec(coqw.App("BValidate", coqw.N(s), coqw.N(rq)), []int64{b2i64x(b.Validate(w.reqs[rq]) == nil)})
 			case 7:
-				rec(coqw.App("BHeader", coqw.N(s)), w.headerObs(b))
+				if r.Bool() {
+					rq1, rq2 := uint64(r.Intn(len(w.reqs))), uint64(r.Intn(len(w.reqs)))
+					rec(coqw.App("BValidateMany", coqw.N(s), coqw.ListOf([]uint64{rq1, rq2}, coqw.N)), []int64{b2i64x(b.Validate(w.reqs[rq1], w.reqs[rq2]) == nil)})
+				} else {
+					rec(coqw.App("BHeader", coqw.N(s)), w.headerObs(b))
+				}
 			case 8:
 				rec(coqw.App("BLen", coqw.N(s)), []int64{int64(b.Len())})
 			case 9:
@@ -516,6 +558,12 @@ func genBundle(c *ctx, cached bool) {
 				}
 				// make sure every ticket of the bundle is registered before the new discharges are read
 				bundle.ForEach(b, func(t bundle.Token) { w.tokCoq(t) })
+				// the model's key_ok: the key opens EVERY undischarged ticket of that location (else nothing is added)
+				for _, tk := range b.UndischargedTicketsForThirdParty(bLocs[tp]) {
+					if _, _, derr := macaroon.DischargeTicket(key, bLocs[tp], tk); derr != nil {
+						good = false
+					}
+				}
 				first := w.nextID
 				before := b.Len()
 				err := b.Discharge(bLocs[tp], key, func(cv []macaroon.Caveat) ([]macaroon.Caveat, error) { return nil, nil })
@@ -594,6 +642,35 @@ func knownF7b(c *ctx, st *cs.Stream) {
 		cse.OracleFail = "cached verification merges a different discharge's caveats than direct verification"
 	}
 	st.Add(cse)
+}
+
+// cacheTTLOracle: an acceptance is reused only until it expires - a hit must not renew the entry.
+// TTL 900 ms; verify at 0 (miss), at ~500 ms (hit), at ~1100 ms: the inner verifier must be consulted again.
+func cacheTTLOracle(c *ctx) string {
+	w := newBWorld(c.r.Fork())
+	m, _ := macaroon.New([]byte("k1"), bLocs[0], w.keys["k1"])
+	hdr, _ := m.String()
+	lv := &loggingVerifier{w, w.resolver()}
+	cache := bundle.NewVerificationCache(lv, 900*time.Millisecond, 8)
+	verify := func() int {
+		w.innerLog = nil
+		b, _ := bundle.ParseBundle(bLocs[0], hdr)
+		b.Verify(context.Background(), cache)
+		return len(w.innerLog)
+	}
+	t0 := time.Now()
+	if verify() != 1 {
+		return "first presentation did not reach the inner verifier"
+	}
+	time.Sleep(500*time.Millisecond - time.Since(t0))
+	if verify() != 0 {
+		return "second presentation inside the TTL was not served from the cache"
+	}
+	time.Sleep(1100*time.Millisecond - time.Since(t0))
+	if verify() != 1 {
+		return "presentation after the entry's expiry (t=1.1 s, TTL 0.9 s, last hit at 0.5 s) was served from the cache: a hit renewed the entry"
+	}
+	return ""
 }
 
 func b2i64x(b bool) int64 {
